@@ -3,11 +3,11 @@ C06 — property theorems (sparse matrices and linear operators).
 Helper lemmas live in OFV/Proofs/C06*.lean.  Every theorem is audited with `#print axioms`.
 The Model functions named here are the ones `ofv-driver` executes in the correspondence run.
 
-Proved end-to-end for one term: `qubit_term_matrix_sound` (the Kronecker chain of a Pauli string is
-its matrix in the big-endian basis, all register sizes).  Not proved (see OPEN_STATEMENTS in
-harness/c06.py): the coordinate assembly over several terms (`qubitTermTriplets` with the swapped
-`nonzero()` order for QubitOperators); it is covered by the exact correspondence run and the Spec
-oracle.  `jordan_wigner_sparse` is proved end to end (`jw_term_matrix_sound`, `jw_sparse_sound`).
+Proved end to end: `qubit_sparse_sound` (Kronecker chains, the swapped `(column, row) = nonzero()`
+coordinate extraction — right because Pauli-string chains have a symmetric sparsity pattern and no
+explicit zeros —, duplicate summation), `jw_sparse_sound`, `matvec_*`, `diagonal_sound`,
+`parallel_*`.  Not proved (see OPEN_STATEMENTS in harness/c06.py): truncated boson / quadrature
+matrices and the scipy glue of expectation / variance / eigenspectrum (numeric correspondence).
 -/
 import OFV.Model.C06
 import OFV.Spec.C06
@@ -17,6 +17,7 @@ import OFV.Proofs.C06Term
 import OFV.Proofs.C06Matvec
 import OFV.Proofs.C06Ladder
 import OFV.Proofs.C06JW
+import OFV.Proofs.C06Assembly
 
 namespace OFV.C06
 open OFV OFV.Spec OFV.Spec.C06 OFV.Model OFV.Model.C06 OFV.Proofs.C06
@@ -145,6 +146,29 @@ theorem coo_assembly_sound (es : List (Nat × Nat × GQ)) (r c : Nat) :
   canonEntries_get es r c
 
 example : canonEntries [(1, 0, ⟨1, 0⟩), (0, 1, ⟨2, 0⟩), (1, 0, ⟨-1, 0⟩)] = [(0, 1, ⟨2, 0⟩)] := by decide +kernel
+
+/-- `coordinate_extraction_sound`: for every Pauli-string chain (any coefficient, any register size)
+the triplets `values = M.tocoo().data` (CSC order), `(column, row) = M.nonzero()` (row-major order,
+names swapped) that `qubit_operator_sparse` collects are exactly the entries of the term matrix:
+the two sorted index lists coincide because the pattern is symmetric and there are no explicit zeros. -/
+theorem coordinate_extraction_sound (n : Nat) (t : List (Nat × Nat)) (c : GQ) :
+    qubitTermTriplets (kronList (qubitTermFactors n t c)) =
+      some (sortBy keyCR (kronList (qubitTermFactors n t c)).entries) :=
+  qubitTermTriplets_chain n t c
+
+/-- the extraction is NOT right for a non-symmetric pattern (why the statement needs the Pauli structure) -/
+example : qubitTermTriplets ⟨2, 2, [(0, 1, 1)]⟩ = some [(1, 0, 1)] := by decide +kernel
+
+/-- `qubit_sparse_sound`, whole operator: for an operator of Pauli strings on qubits `< n` (and
+`count_qubits ≤ n`) the Model of `qubit_operator_sparse(op, n)` returns a `2^n × 2^n` matrix whose
+dense entry at (row `beIndex n u`, column `beIndex n s`) is the matrix element `Σ_terms c · ⟨u| t |s⟩`
+of the operator in the Spec, for all basis states. -/
+theorem qubit_sparse_sound (n : Nat) (a : List (List (Nat × Nat) × GQ)) (hc : countQubitsQubit a ≤ n)
+    (ha : ∀ e ∈ a, e.1.Pairwise (fun f g => f.1 < g.1) ∧ ∀ f ∈ e.1, f.1 < n ∧ 1 ≤ f.2 ∧ f.2 ≤ 3)
+    (s u : Nat) (hs : s < 2 ^ n) (hu : u < 2 ^ n) :
+    ∃ L, qubitOperatorSparse (some n) a = some (2 ^ n, L) ∧
+      getL L (beIndex n u) (beIndex n s) = a.foldl (fun acc e => acc + e.2 * Spec.C07.ampP e.1 s u) 0 :=
+  qubitSparse_get n a hc ha s u hs hu
 
 /-! ### `LinearQubitOperator._matvec` -/
 
